@@ -18,12 +18,18 @@ RULE = ("case = (generator type, construction path, jds, sizes, callbacks, motif
         "randrange/choice/randint, a uniform branch), so one evaluation = up to 576 runs of the real generator; "
         "compared: multiset of (callback calls) over all leaves vs the model over the Coq sample space, shuffle "
         "protocol on every leaf; the corpus (judged first) holds the four-degree-1-vertices example and 21 inputs with a vertex "
-        "of degree >= 2 in a topology (degenerate placements must carry their full weight). Non-trivial = at least two distinct placements; distinct by (type, jds, sizes, indices)")
+        "of degree >= 2 in a topology (degenerate placements must carry their full weight). NON-DIVISIBLE sequences "
+        "(some topology's stub count is not a multiple of its motif size; fast / network generator, all construction paths): "
+        "every one with one topology under the same bounds, every 5th / 16th (quick; offset drawn from the seed) or 3rd / 4th "
+        "(thorough) with two -- the short last group is handed to the callback, so WHICH stubs are left over must be uniform "
+        "as well; six of them in the corpus. Non-trivial = at least two distinct placements; distinct by (type, jds, sizes, indices)")
 EXHAUSTIVE = {"quick": True, "thorough": True}
 EXPLANATION = ("counting theorems (all stub lists, any length) in Props/C03.v; the histogram checker is proved to DECIDE "
                "'flat and complete' and to accept the model's histogram (also in the form c03_check computes it, from the "
                "callback calls of every run) for every valid input; per case the enumeration over the RNG outcomes is "
-               "exhaustive; the family of jds is exhaustive under the stated bounds")
+               "exhaustive; the family of handshake-consistent jds is exhaustive under the stated bounds, the non-divisible "
+               "ones (fast / network only; C03_placement_fast_is_shuffle_any_length) exhaustive for one topology and a "
+               "fixed-stride sample for two")
 ASSUMPTIONS = ["CPython's random.shuffle is uniform over the n! permutations of its argument and successive calls are "
                "independent (trusted base, DESIGN section 6)"]
 TRUSTED = ["oracle-tree walker in harness/props/c03.py (replays a prefix of answers, branches on the first unscripted call)"]
@@ -44,7 +50,11 @@ LEVEL_TEXT = (
     "checker for both generators (C03_fast_calls_pass_checker, C03_custom_calls_pass_checker). The real generators "
     "are tied to this by exact enumeration of every shuffle outcome for all small jds (<=4 stubs per topology, "
     "<=2 topologies) and by the shuffle protocol check (exactly one random.shuffle per topology on the full stub "
-    "list, no other randomness).")
+    "list, no other randomness). The handshake condition is NOT needed for the fast / network generator: "
+    "C03_placement_fast_is_shuffle_any_length / C03_fast_calls_pass_checker_any_length prove the same for every "
+    "rectangular jds with positive sizes (the short last group is passed on as it is), so c03_check also judges "
+    "non-divisible sequences there (hypothesis validb_nohs); for the custom generator (which pops the short partition "
+    "first and drops a full one) divisibility stays a hypothesis.")
 LEVEL_NOTE = ("Trusted: uniformity and independence of CPython's random.shuffle; Coq kernel; extraction + driver + "
               "harness. The statement is about the law induced by a uniform shuffle, not about the Mersenne Twister.")
 IMPL_TIMEOUT = 60.0
@@ -181,11 +191,26 @@ def corpus():
                         "mis": mis1})
         out.append({"tag": tag, "via": via, "jds": [[2, 1], [1, 1], [1, 0]], "sizes": [2, 2], "codes": [G.CLIQUE, G.CLIQUE],
                     "names": [[1], [2]], "mis": [[0], [1]] if tag == G.MOTIFS else []})
+    # stub count NOT a multiple of the motif size (fast / network): WHICH stub is left over is uniform as well
+    # (C03-r3-2: surplus stubs dropped before the shuffle, the highest-numbered vertices always lose)
+    for (tag, via), (jds, size) in zip(ND_TV, (([[1], [1], [1]], 2), ([[1]] * 5, 2), ([[1]] * 4, 3), ([[2], [1], [1], [1]], 2),
+                                               ([[1], [1], [1]], 4), ([[1], [2], [1]], 3))):
+        out.append({"tag": tag, "via": via, "jds": jds, "sizes": [size], "codes": [G.CLIQUE], "names": [[1]], "mis": [],
+                    "nondiv": True})
     return out
 
 
-def family(N_max1, N_max2, maxsum, tags_vias):
+ND_TV = [(G.FAST, "direct"), (G.NETWORK, "main"), (G.FAST, "main"), (G.NETWORK, "direct"), (G.FAST, "factory"),
+         (G.NETWORK, "factory")]
+
+
+def family(N_max1, N_max2, maxsum, tags_vias, nondiv=None):
+    """handshake-consistent jds: every one, generator types in rotation.  nondiv = (stride, offset): ALSO the jds in
+    which some topology's stub count is NOT a multiple of its motif size (fast / network generator only: the short
+    last group is handed to the callback, so the calls still carry the whole shuffled stub list and c03_check judges
+    them, GenC03P.placement_fast_nohs) -- every one with one topology, every stride-th with two."""
     i = 0
+    j = 0
     for T, N_max in ((1, N_max1), (2, N_max2)):
         for N in range(1, N_max + 1):
             cols = [c for c in G.small_columns(N, maxsum, maxsum) if sum(c) > 0]
@@ -194,13 +219,22 @@ def family(N_max1, N_max2, maxsum, tags_vias):
                 jds = [[colset[k][v] for k in range(T)] for v in range(N)]
                 for sizes in itertools.product((1, 2, 3, 4), repeat=T):
                     if any(s % n for s, n in zip(sums, sizes)):
+                        if nondiv is None:
+                            continue
+                        j += 1
+                        if T > 1 and (j + nondiv[1]) % nondiv[0]:
+                            continue
+                        tag, via = ND_TV[j % len(ND_TV)]
+                        yield {"tag": tag, "via": via, "jds": jds, "sizes": list(sizes), "codes": [G.CLIQUE] * T,
+                               "names": G.names_for(tag, [G.CLIQUE] * T, list(sizes), [[k] for k in range(T)]),
+                               "mis": [], "nondiv": True}
                         continue
                     tag, via = tags_vias[i % len(tags_vias)]
                     i += 1
                     mis = [[k] for k in range(T)]
                     if tag == G.MOTIFS and T == 2 and sums[0] // sizes[0] == sums[1] // sizes[1] and i % 2:
                         mis = [[1, 0]]
-                    codes = [G.CLIQUE if sum(sizes[j] for j in idxs) != 2 or tag != G.MOTIFS else G.BARE for idxs in mis]
+                    codes = [G.CLIQUE if sum(sizes[j_] for j_ in idxs) != 2 or tag != G.MOTIFS else G.BARE for idxs in mis]
                     yield {"tag": tag, "via": via, "jds": jds, "sizes": list(sizes), "codes": codes,
                            "names": G.names_for(tag, codes, list(sizes), mis), "mis": mis if tag == G.MOTIFS else []}
 
@@ -208,11 +242,11 @@ def family(N_max1, N_max2, maxsum, tags_vias):
 def generate(rng, tier):
     tv = [(G.FAST, "direct"), (G.MOTIFS, "direct"), (G.NETWORK, "main"), (G.MOTIFS, "factory"), (G.FAST, "main")]
     if tier == "quick":
-        yield from family(4, 2, 4, tv)
-        yield from family(0, 3, 3, tv)
+        yield from family(4, 2, 4, tv, nondiv=(5, rng.randrange(5)))
+        yield from family(0, 3, 3, tv, nondiv=(16, rng.randrange(16)))
     else:
-        yield from family(4, 3, 4, tv)
-        yield from family(5, 4, 3, tv[1:] + tv[:1])
+        yield from family(4, 3, 4, tv, nondiv=(3, rng.randrange(3)))
+        yield from family(5, 4, 3, tv[1:] + tv[:1], nondiv=(4, rng.randrange(4)))
 
 
 def impl(case):
